@@ -42,3 +42,97 @@ DOW_NEXT_PRE = ["next ", "following ", "the next ", "on the next ", "on next ", 
                 "am kommenden ", "den nächsten ", "dem nächsten ", "kommende woche ", "nächste woche ",
                 "am dem nächsten "]
 DOW_NEXT_POST = [" next week", " following week", " nächste woche", " kommende woche"]
+
+# ---------------------------------------------------------------------------
+# clock notations (C06, C05, C07, C20)
+# ---------------------------------------------------------------------------
+
+
+def _h12(h):
+    return (h % 12) or 12
+
+
+def _ap(h, a, p):
+    return a if h < 12 else p
+
+
+def _year_like(h, m):
+    y = h * 100 + m
+    return 1900 <= y <= 2029
+
+
+# name -> (builder(h, m) -> text | None, flags)
+# flags: 'hour_only' = the notation names a full hour and the library may leave
+#        the minute unspecified (treated as 0); 'exclude' = predicate(h, m) ->
+#        reason for a competing legitimate reading (DESIGN 2.3)
+CLOCK = {
+    "HH:MM": (lambda h, m: "%02d:%02d" % (h, m), {}),
+    "H:MM": (lambda h, m: "%d:%02d" % (h, m), {}),
+    "HhMM": (lambda h, m: "%dh%02d" % (h, m), {}),
+    "HuhrMM": (lambda h, m: "%duhr%02d" % (h, m), {}),
+    "H.MM": (lambda h, m: "%d.%02d" % (h, m),
+             {"exclude": lambda h, m: "also-a-dd.mm-date" if (1 <= h <= 31 and 1 <= m <= 12) else None}),
+    "HH:MM Uhr": (lambda h, m: "%02d:%02d Uhr" % (h, m), {}),
+    "H:MMuhr": (lambda h, m: "%d:%02duhr" % (h, m), {}),
+    "H:MMh": (lambda h, m: "%d:%02dh" % (h, m), {}),
+    "H:MM h": (lambda h, m: "%d:%02d h" % (h, m), {}),
+    "H.MM Uhr": (lambda h, m: "%d.%02d Uhr" % (h, m), {}),
+    "H Uhr": (lambda h, m: "%d Uhr" % h if m == 0 else None, {}),
+    "Huhr": (lambda h, m: "%duhr" % h if m == 0 else None, {}),
+    "Hh": (lambda h, m: "%dh" % h if m == 0 else None, {}),
+    "H h": (lambda h, m: "%d h" % h if m == 0 else None, {}),
+    "H o'clock": (lambda h, m: "%d o'clock" % h if m == 0 else None, {"hour_only": True}),
+    "H oclock": (lambda h, m: "%d oclock" % h if m == 0 else None, {"hour_only": True}),
+    "h:MMam": (lambda h, m: "%d:%02d%s" % (_h12(h), m, _ap(h, "am", "pm")), {"ampm": True}),
+    "h:MM am": (lambda h, m: "%d:%02d %s" % (_h12(h), m, _ap(h, "am", "pm")), {"ampm": True}),
+    "h:MM a.m.": (lambda h, m: "%d:%02d %s" % (_h12(h), m, _ap(h, "a.m.", "p.m.")), {"ampm": True}),
+    "h:MMAM": (lambda h, m: "%d:%02d%s" % (_h12(h), m, _ap(h, "AM", "PM")), {"ampm": True}),
+    "h.MM am": (lambda h, m: "%d.%02d %s" % (_h12(h), m, _ap(h, "am", "pm")), {"ampm": True}),
+    "hh:MM am": (lambda h, m: "%02d:%02d %s" % (_h12(h), m, _ap(h, "am", "pm")), {"ampm": True}),
+    "ham": (lambda h, m: "%d%s" % (_h12(h), _ap(h, "am", "pm")) if m == 0 else None, {"ampm": True}),
+    "h am": (lambda h, m: "%d %s" % (_h12(h), _ap(h, "am", "pm")) if m == 0 else None, {"ampm": True}),
+    "h a.m.": (lambda h, m: "%d %s" % (_h12(h), _ap(h, "a.m.", "p.m.")) if m == 0 else None, {"ampm": True}),
+    # four digits: the documented military-time heuristic applies only to
+    # minutes that are a multiple of 5, and a number that is also a year
+    # (19xx, 200x-202x) has a competing reading
+    "HHMM": (lambda h, m: "%02d%02d" % (h, m) if m % 5 == 0 else None,
+             {"exclude": lambda h, m: "also-a-year" if _year_like(h, m) else None, "military": True}),
+    "HHMM Uhr": (lambda h, m: "%02d%02d Uhr" % (h, m), {}),
+    "HHMMh": (lambda h, m: "%02d%02dh" % (h, m), {}),
+    "hhMMam": (lambda h, m: "%02d%02d%s" % (_h12(h), m, _ap(h, "am", "pm")) if m % 5 == 0 else None,
+               {"ampm": True, "military": True}),
+}
+
+HOUR_EN = ["one", "two", "three", "four", "five", "six", "seven", "eight", "nine", "ten", "eleven", "twelve"]
+HOUR_DE = ["eins", "zwei", "drei", "vier", "fünf", "sechs", "sieben", "acht", "neun", "zehn", "elf", "zwölf"]
+NAMED_HOUR_SUFFIX = ["", " uhr", "uhr", " o'clock", " oclock", " h", "h"]
+MIDNIGHT = ["midnight", "mitternacht"]
+
+# spoken quarter / half: prefix -> (hour offset, minute)
+SPOKEN = {
+    "quarter to": (-1, 45), "a quarter to": (-1, 45), "quarter till": (-1, 45), "quarter before": (-1, 45),
+    "quarter of": (-1, 45), "one quarter to": (-1, 45), "viertel vor": (-1, 45), "virtel vor": (-1, 45),
+    "quarter past": (0, 15), "quarter after": (0, 15), "a quarter past": (0, 15), "viertel nach": (0, 15),
+    "half past": (0, 30), "half after": (0, 30), "halfe past": (0, 30), "halb nach": (0, 30),
+    "halb": (-1, 30), "half to": (-1, 30), "half before": (-1, 30), "half": (-1, 30), "halb vor": (-1, 30),
+    "half till": (-1, 30), "half of": (-1, 30),
+}
+SPOKEN_HOUR_FORMS = {
+    "d": lambda h: "%d" % h, "d:00": lambda h: "%d:00" % h, "d uhr": lambda h: "%d uhr" % h,
+    "d o'clock": lambda h: "%d o'clock" % h,
+}
+
+# '<clock> in the <part of day>' (hours 1..11): unambiguous clock forms only --
+# a bare digit followed by a part of day legitimately reads as a day of month
+# ('3 in the afternoon' = the 3rd in the afternoon), and 'am morgen' reads as
+# 'am <tomorrow>'
+POD_PM = ["in the afternoon", "afternoon", "nachmittags", "am nachmittag", "in the evening", "evening", "abends",
+          "am abend", "at night", "in the night", "nachts", "tonight", "night"]
+POD_AM = ["in the morning", "morning", "morgens", "vormittags", "am vormittag", "in the forenoon", "früh"]
+POD_CLOCK = {
+    "h:MM": (lambda h, m: "%d:%02d" % (h, m), {}),
+    "hh:MM": (lambda h, m: "%02d:%02d" % (h, m), {}),
+    "h uhr": (lambda h, m: "%d uhr" % h if m == 0 else None, {}),
+    "h.MM uhr": (lambda h, m: "%d.%02d uhr" % (h, m), {}),
+    "h o'clock": (lambda h, m: "%d o'clock" % h if m == 0 else None, {"hour_only": True, "no_am_pod": True}),
+}
